@@ -8,12 +8,13 @@ as a Mathlib matrix.  Every theorem is for **all** dimensions / ranks / orders a
 except for the guards written as hypotheses (`θ ≠ 0` for the quotient maps, full column rank for polar/qr).
 External routines (`expm`, `inv`, `cholesky`, inverse square root, `qr`) are parameters; their contracts are hypotheses.
 
-Kept as `def …Statement : Prop` + `…_partial` (not proved in full): `soExp_complex_det_one` (needs `det ∘ exp = exp ∘ tr`,
-absent from Mathlib; the proved fragment is `|det| = 1`).
+Nothing is kept as an unproved `…Statement`: `det = 1` for the SU(d) exp chart goes through the spectral theorem.
 -/
 import NumqiProofs.ManifoldEnsemble
 import NumqiProofs.ManifoldSym
 import NumqiProofs.ManifoldEuler
+import NumqiProofs.ManifoldDetExp
+import NumqiProofs.ManifoldABk
 
 namespace Numqi.C01
 open Numqi Numqi.Manifold Matrix Finset
@@ -139,18 +140,11 @@ theorem soExp_real_det_one (expm : NMat ℂ → NMat ℂ) (hexp : ∀ A, toM dim
     (S : Scalars ℂ) (hS : S.Valid dim) (hd : 1 ≤ dim) (θ : Nat → ℝ) :
     (toM dim dim (soExp expm S dim true θ)).det = 1 := soExp_real_det' expm hexp S hS hd θ
 
-/-- complex branch: determinant one — **full statement, not proved** (needs `det (exp A) = exp (tr A)`, absent from Mathlib) -/
-def soExp_complex_det_one.Statement : Prop :=
-  ∀ (dim : Nat) (expm : NMat ℂ → NMat ℂ), (∀ A, toM dim dim (expm A) = mexp (toM dim dim A)) →
-    ∀ (S : Scalars ℂ), S.Valid dim → 1 ≤ dim → ∀ θ : Nat → ℝ, (toM dim dim (soExp expm S dim false θ)).det = 1
-
-/-- proved fragment: the determinant has modulus one -/
-theorem soExp_complex_det_one_partial (expm : NMat ℂ → NMat ℂ) (hexp : ∀ A, toM dim dim (expm A) = mexp (toM dim dim A))
+/-- complex branch (SU(d) chart): **determinant one** — by unitary diagonalisation of the Hermitian `-i·generator`
+(spectral theorem) and `exp (U D U⁻¹) = U exp(D) U⁻¹`, `det = Π exp(iλ_k) = exp(i·tr H) = 1` for the traceless generator. -/
+theorem soExp_complex_det_one (expm : NMat ℂ → NMat ℂ) (hexp : ∀ A, toM dim dim (expm A) = mexp (toM dim dim A))
     (S : Scalars ℂ) (hS : S.Valid dim) (hd : 1 ≤ dim) (θ : Nat → ℝ) :
-    Complex.normSq (toM dim dim (soExp expm S dim false θ)).det = 1 := by
-  have := congrArg det (soExp_unitary' expm hexp S hS hd false θ)
-  rw [det_mul, det_conjTranspose, det_one, Complex.star_def, mul_comm, Complex.mul_conj] at this
-  exact_mod_cast this
+    (toM dim dim (soExp expm S dim false θ)).det = 1 := soExp_complex_det' expm hexp S hS hd θ
 
 /-- `to_special_orthogonal_cayley` is unitary for every θ and every order (contract: `inv` is a left inverse on invertible
 input; `1 + A` is proved invertible) -/
@@ -233,6 +227,33 @@ theorem separable_is_mixture (n : Nat) (p : Nat → ℂ) (a b : NMat ℂ) (i j i
 theorem stiefelEuler_orthonormal (dim rank : Nat) (isReal withPhase : Bool) (θ : Nat → ℝ) (h : rank ≤ dim) :
     (toM dim rank (stiefelEuler (K := ℂ) dim rank isReal withPhase θ))ᴴ * toM dim rank (stiefelEuler (K := ℂ) dim rank isReal withPhase θ) = 1 :=
   stiefelEuler_orthonormal' dim rank isReal withPhase θ h
+
+/-! ### `_ABk.py`: symmetric-extension Hermitian manifolds (index bookkeeping, any commutative `*`-ring) -/
+
+/-- `ABkHermitian()` is Hermitian: `index_sym`, `index_skew` symmetric, `factor_skew` antisymmetric (checked exactly on the live tables
+by the harness), real parameters -/
+theorem abkHermitian_hermitian {R : Type} [CommRing R] [StarRing R] (I : R) (hI : star I = -I)
+    (idxSym idxSkew : Nat → Nat → Nat) (fac : Nat → Nat → R) (θsym θskew : Nat → R)
+    (hs : ∀ q, star (θsym q) = θsym q) (hk : ∀ q, star (θskew q) = θskew q) (hf : ∀ r c, star (fac r c) = fac r c)
+    (h1 : ∀ r c, idxSym r c = idxSym c r) (h2 : ∀ r c, idxSkew r c = idxSkew c r) (h3 : ∀ r c, fac r c = -fac c r) (r c : Nat) :
+    star (ABk.hermitian I idxSym idxSkew fac θsym θskew c r) = ABk.hermitian I idxSym idxSkew fac θsym θskew r c :=
+  ABk.hermitian_star I hI idxSym idxSkew fac θsym θskew hs hk hf h1 h2 h3 r c
+
+/-- … and invariant under every index permutation that preserves the three tables (the exchanges of two `B` copies) -/
+theorem abkHermitian_permutation_invariant {R : Type} [CommRing R] [StarRing R] (I : R)
+    (idxSym idxSkew : Nat → Nat → Nat) (fac : Nat → Nat → R) (θsym θskew : Nat → R) (π : Nat → Nat)
+    (h1 : ∀ r c, idxSym (π r) (π c) = idxSym r c) (h2 : ∀ r c, idxSkew (π r) (π c) = idxSkew r c)
+    (h3 : ∀ r c, fac (π r) (π c) = fac r c) (r c : Nat) :
+    ABk.hermitian I idxSym idxSkew fac θsym θskew (π r) (π c) = ABk.hermitian I idxSym idxSkew fac θsym θskew r c :=
+  ABk.hermitian_perm I idxSym idxSkew fac θsym θskew π h1 h2 h3 r c
+
+/-- `ABk2localHermitian()` is Hermitian when the coefficient rows addressed by `(r,c)` and `(c,r)` agree / are opposite -/
+theorem abk2local_hermitian {R : Type} [CommRing R] [StarRing R] (I : R) (hI : star I = -I) (d : Nat)
+    (coefS : Nat → Nat → R) (idxS : Nat → Nat → Nat) (coefK : Nat → Nat → R) (idxK : Nat → Nat → Nat) (M : Nat → Nat → R)
+    (hM : ∀ a b, star (M a b) = M a b) (hcS : ∀ a q, star (coefS a q) = coefS a q) (hcK : ∀ a q, star (coefK a q) = coefK a q)
+    (h1 : ∀ r c q, coefS (idxS c r) q = coefS (idxS r c) q) (h2 : ∀ r c q, coefK (idxK c r) q = -coefK (idxK r c) q) (r c : Nat) :
+    star (ABk.twoLocal I d coefS idxS coefK idxK M c r) = ABk.twoLocal I d coefS idxS coefK idxK M r c :=
+  ABk.twoLocal_star I hI d coefS idxS coefK idxK M hM hcS hcK h1 h2 r c
 
 /-! ### non-vacuity -/
 
